@@ -86,7 +86,9 @@ var vHostileLists = [][]string{{"..", "evil"}, {"sub", "..", "..", "evil2"}, {"a
 	// lists that stay inside when joined as sent, but whose first element is deeper than the one name the receiver puts in its place
 	{"a/b/c", "..", "..", "evil12"}, {"a/b", "..", "..", "canary.txt"}, {"x/y/z/w", "..", "..", "..", "sibling", "canary.txt"}, {"a/./b/c", "..", "..", "evil13"},
 	// elements that are not ".." as sent but become it under any "cleaning" of the name (control characters, blanks, trailing dots)
-	{".\x7f.", "canary.txt"}, {"pkg", ".\x01.", "\x1b..", "evil14"}, {"..\t", "evil15"}, {"top", "..\r", "..\n", "sibling", "canary.txt"}, {".\x00.", "evil16"}, {"top", ".. ", " ..", "evil17"}}
+	{".\x7f.", "canary.txt"}, {"pkg", ".\x01.", "\x1b..", "evil14"}, {"..\t", "evil15"}, {"top", "..\r", "..\n", "sibling", "canary.txt"}, {".\x00.", "evil16"}, {"top", ".. ", " ..", "evil17"},
+	// a last element in the other system's notation: an ordinary name here, a climb after any "translation"
+	{"top", "..\\..\\evil18"}, {"d", "..\\canary.txt"}, {"a", "b", "..\\..\\..\\sibling\\canary.txt"}, {"top", "..\\..\\sibling\\new"}}
 
 // vHostileList composes a path list from suspicious elements (in addition to the fixed lists).
 func vHostileList(tp *verifsim.Tape) []string {
